@@ -1118,6 +1118,8 @@ def e11_dispatch_by_presence(ctx) -> None:
 def run(ctx) -> None:
     ctx.guard(e11_dispatch_by_presence)
     from .c15 import r15_4 as _r15_4
+    from .c15 import r15_1 as _r15_1
+    ctx.guard_as("E3", _r15_1)  # the premise of J1: check_header(..., check_more=True) runs before anything reads an algorithm-specific member (else the asserts on them are reachable)
     ctx.guard_as("E10", _r15_4)  # a header member that is present is type-checked before anything uses it (null included)
     ctx.guard(e6_none_safety)
     ctx.guard(e1_e5)
